@@ -118,6 +118,29 @@ def run(ctx: Ctx):
     d = ctx.driver
     ndecl = 1500 if ctx.thorough else 150
     ncalls = 0
+    # phase 0 — the very first unrecognised values this process ever constructs are handed over as *other kinds of int*
+    # (bool, int subclass, a value of another enum) and only afterwards as plain ints: anything remembered from the first
+    # construction (a name, an instance) must not leak into the later ones, on this enum or on any other
+    K0 = make_enum(meta, "K0", [("A", 7)])
+    K1 = make_enum(meta, "K1", [("B", 9)])
+    for kind, x, n in [("bool", True, 1), ("bool", False, 0), ("int subclass", _IntSub(3), 3), ("int subclass", _IntSub(-2), -2),
+                       ("member of another enum", K1.B, 9)]:
+        for E_, members_ in ((K0, [("A", 7)]), (K1, [("B", 9)])):
+            try:
+                w = E_(x)
+                ok = isinstance(w, E_) and w == n and int(w) == n and hash(w) == hash(n) and \
+                    w.name == (dict((o, nm) for nm, o in members_).get(n) or f"Unrecognized({n})")
+                why = None if ok else f"{E_.__name__}(<{kind} {n}>) = {w!r} (name {w.name!r}) does not behave as {E_.__name__}({n})"
+            except Exception as ex:  # noqa: BLE001
+                why = f"{E_.__name__}(<{kind} {n}>) raised {type(ex).__name__}: {ex}"
+            if why is None:
+                why, _ = oracle_call(E_, members_, n)     # and now the plain integer
+                if why:
+                    why += f" (after the same number had been handed over as a {kind})"
+            if why:
+                ctx.violation("property-fails", why, {"input": {"members": members_, "calls": [f"<{kind} {n}>", n], "failing": n}})
+                return
+            ncalls += 2
     lines, impl, info = [], [], []
     for i in range(ndecl):
         name, members = gen_decl(rng, i)
